@@ -18,6 +18,8 @@ CORPUS = [
     ('fn apply(f: fn(Int) -> String, x: Int) { f(x) }\nfn main() { let s = apply(fn(i) { "a" }, 1)  s }\n', 's =', 'String'),
     ('fn id(x) { x }\nfn main() { let a = id(1)  let b = id("s")  #(a, b) }\n', 'b =', 'String'),
     ('fn main() { let l = [1, 2]  let t = #(l, "s")  t }\n', 't =', '#(List(Int), String)'),
+    ('type T { C(Int, a: String, b: Float) }\nfn f(t: T) { case t { C(p, q, b: r) -> #(p, q, r) } }\n', 'q,', 'String'),
+    ('type T { C(Int, a: String, b: Float) }\nfn f(t: T) { case t { C(p, b: r, a: q) -> #(p, q, r) } }\n', 'r,', 'Float'),
 ]
 
 
@@ -50,6 +52,20 @@ def native_corpus(oracle):
     return problems
 
 
+def pattern_witness(oracle, cex):
+    """hover on the pattern variables of the program a constructor-pattern finding carries; returns a description of the first wrong type"""
+    prog = cex['program']
+    for var, want in cex['expect'].items():
+        off = prog.index(var)
+        r = oracle.ask('hover', json.dumps({'text': prog, 'offsets': [off]}))
+        got = (r.get('hover') or [None])[0] if isinstance(r, dict) else None
+        if not isinstance(r, dict) or 'panic' in r or 'died' in r:
+            return 'hover on %r: %s' % (prog, r)
+        if got is None or want not in got:
+            return 'hover on %s in %r shows %r, Gleam assigns %s' % (var, prog, got, want)
+    return None
+
+
 def run_kernel(chk, tier, jobs, props):
     B = BOUNDS[tier]
     found = []
@@ -62,6 +78,11 @@ def run_kernel(chk, tier, jobs, props):
         res, complete = explore.explore(unifier.call_factory, (kk,), jobs=jobs)
         chk.add_run('infer_expr on a call with %d arguments: labels from {none,a,b}, each argument a capture hole or an Int literal' % kk, res, complete, {'arguments': kk},
                     nontrivial_classes=lambda c: c in ('call', 'capture'))
+        found += [v for v in res.violations if any(w.startswith(tuple(props)) for w in v['why'])]
+    for mm, kk in ((1, 1), (2, 1), (2, 2), (3, 2)) if tier == 'quick' else ((1, 1), (2, 1), (2, 2), (3, 1), (3, 2), (3, 3)):
+        res, complete = explore.explore(unifier.ctorpat_factory, (mm, kk), jobs=1)
+        chk.add_run('infer_pattern on a constructor pattern: %d fields (labels from {none,a,b}, unlabelled first), %d sub-patterns (positional first, then labelled)' % (mm, kk), res, complete,
+                    {'fields': mm, 'sub_patterns': kk}, nontrivial_classes=lambda c: c.startswith('bound'))
         found += [v for v in res.violations if any(w.startswith(tuple(props)) for w in v['why'])]
     from . import deporder
     deporder.W = unifier.W
@@ -114,6 +135,14 @@ def main(tier, seed):
             if key in seen:
                 continue
             seen.add(key)
+            if v.get('cex', {}).get('expect'):
+                # a constructor-pattern finding carries its own program: hover on every pattern variable
+                w = pattern_witness(oracle, v['cex'])
+                if w:
+                    chk.violation('infer-pattern', 'bounded', '%s; public API: %s' % (v['why'][0][:400], w[:400]), v['cex'], confirmed=True)
+                else:
+                    chk.inconclusive.append('constructor-pattern kernel: %s - but hover on %r shows the expected types' % (v['why'][0][:300], v['cex']['program']))
+                continue
             if corpus_problems:
                 chk.violation('unifier', 'bounded', '%s; public API: %s' % (v['why'][0][:400], corpus_problems[0][:300]), v['cex'], confirmed=True)
             else:
@@ -126,6 +155,7 @@ def main(tier, seed):
         'kernel claim: UnionFind (all sequences of k unify on n elements, Kani/CBMC with unwinding assertions), InferCtx::{unify, unify_var_ty, try_unify_var} and Collector over small tables built directly; '
         'InferCtx.db / resolver / body are opaque values the unifier must not touch; the whole-program statement (types of binders in generated programs), make_ty_from_typeref, instantiation and SCC ordering need the salsa database and are outside the claim',
         'call kernel: InferCtx::infer_expr (real MIR, real table and unifier) on calls built directly as arena data: <= 2 (thorough 3) arguments, labels from {none,a,b}, each argument a capture hole or an Int literal, the callee a hole so that the type the call imposes is read back from the table',
+        'constructor-pattern kernel: InferCtx::infer_pattern (real MIR, real table) on C(p.., l: p..) built as arena data, resolve_variant answered with m <= 3 fields whose labels the solver chooses (unlabelled first), positional sub-patterns first; reference: the i-th positional sub-pattern binds field i, a labelled one the field of its label',
         'dependency-order kernel: dependency_order_query on its real MIR with the database havoc\'d and one function body of <= 2 (thorough 3) identifier expressions: every non-self edge must come from resolve_name on a resolver built by resolver_for_expr for that very expression; the SCC computation (petgraph) is not executed',
         'reference for label reordering: labelled parameters are paired by label in any order, the remaining ones by position; parameter mismatches do not fail the unification, the return type does (as the code documents)',
         'kernel findings are reported only if a public-API corpus of typed programs (hover) shows a wrong type or a crash as well']
